@@ -81,3 +81,18 @@ Proof.
   - eauto 8.
 Qed.
 Print Assumptions C12_create_reads.
+
+(* A FAILING TIMEOUT FUNCTION IS RETRIED: timeout.go processTimeout from the invocation on, along the path of a returned error
+   (whatever status was returned alongside; the invocation itself may pause or cancel the run through its controller; maybePause
+   may then pause it), for EVERY state in which the run handed to the function carries its stored status: the timeout store is
+   untouched (the timer stays due for the next poll), no run's stored status changes, and neither a "timer completed" call nor
+   a Store at a status other than the stored one is made ([tr_step], [failing_path] = the [inr] branch of [process_timeouts],
+   proofs/TimeoutRetry.v) *)
+From WF Require Import proofs.TimeoutRetry.
+Theorem C12_failing_function_is_retried : forall c inst u st n j b view s,
+  st_of (o_w s) (r_run view) = Some (r_status view) ->
+  w_timers (o_w (snd (failing_path c inst u st n j b view s))) = w_timers (o_w s) /\
+  (forall run, st_of (o_w (snd (failing_path c inst u st n j b view s))) run = st_of (o_w s) run) /\
+  exists t, o_trace (snd (failing_path c inst u st n j b view s)) = (t ++ o_trace s)%list /\ Forall notm t.
+Proof. exact failing_timeout_function_is_retried. Qed.
+Print Assumptions C12_failing_function_is_retried.
